@@ -146,7 +146,7 @@ type Viol struct {
 var defaultPark = map[string]bool{
 	"h.start": true, "h.invoke": true, "h.runexit": true, "h.closer": true,
 	"pool.acq.pop.check": true, "pool.acq.pop.ok": true, "pool.acq.pop.dead": true,
-	"pool.create": true, "pool.acq.new.cancel": true, "pool.acq.new.closed": true, "pool.acq.new.ready": true, "pool.acq.new.dead": true,
+	"pool.acq.new.cancel": true, "pool.acq.new.closed": true, "pool.acq.new.ready": true, "pool.acq.new.dead": true,
 	"pool.acq.wait": true, "pool.acq.wait.got": true, "pool.acq.wait.stuck": true, "pool.acq.wait.cancel": true, "pool.acq.wait.closed": true,
 	"pool.acq.giveup.empty": true, "pool.acq.giveup.got": true, "pool.acq.check.ok": true, "pool.acq.check.dead": true,
 	"pool.invoke.markdead": true, "pool.close.flag": true, "pool.close.cancel": true,
@@ -528,7 +528,20 @@ func (s *Sim) cancelCaller(x int) {
 	if !ok {
 		return
 	}
-	s.sensCancel.Lock()
+	// the caller may be between a fake Invoke's return and its next hook (read window); that hook can
+	// need c.mu, which a parked actor may hold in park-everywhere scripts: never wait for it forever
+	got := false
+	for i := 0; i < 400 && !got; i++ {
+		if got = s.sensCancel.TryLock(); !got {
+			time.Sleep(500 * time.Microsecond)
+		}
+	}
+	if !got {
+		s.mu.Lock()
+		s.append(ActEnv, "h.cancel.skipped", int64(x))
+		s.mu.Unlock()
+		return
+	}
 	s.mu.Lock()
 	a.cancelld = true
 	s.append(ActEnv, "h.cancel", int64(x))
